@@ -24,9 +24,18 @@ type Recorder struct {
 	ID   string // connection id in multi-connection runs
 	Sink *Recorder // when set, events are ALSO appended to this shared recorder with "c": ID
 
+	branchMu   sync.Mutex
+	BranchSegs Segs // what a tee branch has read so far
+	BranchDone bool
+	branchExp  int
+	EchoL, EchoR int // route whose real echo handler ran (0: none)
+	TeeAt      int // stream position at which the tee started (-1: no tee)
+
 	T0 time.Time // when set, every event is stamped with "t" = milliseconds since T0
 
 	InHandler  bool // a recording handler is reading right now
+	InRoute    bool // the handlers of a matched route are running (between its first and last marker)
+	TeeSeen    bool
 	MatcherErr bool // a scripted matcher returned its own error since the flag was cleared
 }
 
@@ -171,4 +180,60 @@ func (r *Recorder) NoteRead(s Segs, chunk []byte) Segs {
 		chunk = chunk[k:]
 	}
 	return s
+}
+
+// noteBranch decodes what a tee branch read (its own expected position, independent of the main chain's).
+func (r *Recorder) noteBranch(s Segs, chunk []byte) Segs {
+	if r.branchExp == 0 && len(s) == 0 {
+		// the branch starts where the main chain stood when the tee ran
+		r.branchExp = r.TeeAt
+	}
+	for len(chunk) > 0 {
+		exp := r.branchExp
+		k := 0
+		for k < len(chunk) && exp+k < len(r.Stream) && r.Stream[exp+k] == chunk[k] {
+			k++
+		}
+		if k > 0 && (k == len(chunk) || k >= 8) {
+			s = s.Add(exp, k)
+			r.branchExp = exp + k
+			chunk = chunk[k:]
+			continue
+		}
+		w := len(chunk)
+		if w > 64 {
+			w = 64
+		}
+		lo := bytes.Index(r.Stream, chunk[:w])
+		if lo < 0 {
+			return append(s, [2]int{-1, -1 + len(chunk)})
+		}
+		k = 0
+		for k < len(chunk) && lo+k < len(r.Stream) && r.Stream[lo+k] == chunk[k] {
+			k++
+		}
+		s = s.Add(lo, k)
+		r.branchExp = lo + k
+		chunk = chunk[k:]
+	}
+	return s
+}
+
+// WaitBranch waits for the tee branch to finish (its pipe is closed when the main chain reads
+// EOF) and appends the Branch event.
+func (r *Recorder) WaitBranch(max time.Duration) {
+	deadline := time.Now().Add(max)
+	for {
+		r.branchMu.Lock()
+		done := r.BranchDone
+		r.branchMu.Unlock()
+		if done || time.Now().After(deadline) {
+			break
+		}
+		time.Sleep(100 * time.Microsecond)
+	}
+	r.branchMu.Lock()
+	segs := append(Segs{}, r.BranchSegs...)
+	r.branchMu.Unlock()
+	r.Add(Ev{"e": "Branch", "segs": segs})
 }
